@@ -168,6 +168,20 @@ fn op_prefix(toks: &[Tok], prop: &str) -> Outcome {
     let mut r = R::new(toks);
     let m = r.msg();
     let f = r.opt_filter();
+    prefix_run(m, f, None, prop)
+}
+
+/// 31 PREFIX_AT: the same at selected cut positions (boundary-size messages, where every cut is unaffordable)
+fn op_prefix_at(toks: &[Tok], prop: &str) -> Outcome {
+    let mut r = R::new(toks);
+    let m = r.msg();
+    let f = r.opt_filter();
+    let n = r.n();
+    let cuts: Vec<usize> = (0..n).map(|_| r.n() as usize).collect();
+    prefix_run(m, f, Some(cuts), prop)
+}
+
+fn prefix_run(m: Message, f: Option<dlt_core::filtering::DltFilterConfig>, cuts: Option<Vec<usize>>, prop: &str) -> Outcome {
     let pf: Option<ProcessedDltFilterConfig> = f.as_ref().map(|c| c.into());
     let mut w = W::new();
     let wf = crate::genmsg::wf_message(&m);
@@ -180,7 +194,11 @@ fn op_prefix(toks: &[Tok], prop: &str) -> Outcome {
             w.n(0);
             w.n(bytes.len() as u128);
             let sh = m.storage_header.is_some();
-            for k in 0..bytes.len() {
+            let cut_list: Vec<usize> = match &cuts {
+                None => (0..bytes.len()).collect(),
+                Some(c) => c.iter().cloned().filter(|k| *k < bytes.len()).collect(),
+            };
+            for &k in &cut_list {
                 let res = parse_owned(&bytes[..k], pf.as_ref(), sh);
                 let code = prefix_code(&res);
                 w.n(code);
@@ -194,7 +212,7 @@ fn op_prefix(toks: &[Tok], prop: &str) -> Outcome {
                 }
             }
             if sh {
-                for k in 0..bytes.len() {
+                for &k in &cut_list {
                     let res = guarded(|| dlt_consume_msg(&bytes[..k]).map(|(rest, c)| (rest.len(), c)));
                     let code = match &res {
                         None => 16777219,
@@ -589,6 +607,7 @@ pub fn run_case2(prop: &str, op: u32, toks: &[Tok]) -> Outcome {
         20 => op_rt(toks, prop),
         21 => op_parse_use(toks, prop),
         23 => op_prefix(toks, prop),
+        31 => op_prefix_at(toks, prop),
         24 => op_junk(toks, prop),
         25 => op_parse_all(toks, prop),
         26 => op_filt(toks, prop),
